@@ -369,6 +369,22 @@ def execute(case):
             res.bad('C15/unresponsive/too_early',
                     'Unresponsive at %.6f, last Pong/Ready at %.6f, t=%s' % (
                         u, last, t))
+        hb_ = case.get('heartbeat')
+        if t and hb_ and not case.get('trickle'):
+            # the Pongs the server sent on its own arrived when they were
+            # sent, whether or not the client reported them (also while a
+            # closing handshake is pending): each is a sign of life
+            k_ = 1
+            while k_ * hb_['every'] <= hb_['until']:
+                x = k_ * hb_['every']
+                if x <= u - 0.002 and u - x <= t - eps:
+                    res.bad('C15/unresponsive/too_early_after_server_pong',
+                            'Unresponsive at %.6f although a Pong arrived '
+                            'at %.6f, t=%s (Pong events seen at %r)' % (
+                                u, x, t, [round(y, 4) for y in
+                                          pong_times[-4:]]))
+                    break
+                k_ += 1
         i = unresp[0].index
         nxt = tr.events[i + 1] if i + 1 < len(tr.events) else None
         if nxt is None or nxt.name != 'disconnected' or nxt.snap[1]:
